@@ -125,6 +125,43 @@ func assignKernel(rel, fn, lhs, leanName, params, resultTy string, sp Spec) func
 	}
 }
 
+// fieldValueKernel translates the value given to `field` in the unique composite literal of type litType inside fn; when the
+// value is a local, its unique defining assignment is followed (so the unit does not depend on the local's name).
+func fieldValueKernel(rel, fn, litType, field, leanName, params, resultTy string, sp Spec) func() string {
+	return func() string {
+		fd := mustFunc(rel, fn)
+		t := &tr{sp: sp}
+		var vals []ast.Expr
+		ast.Inspect(fd.Body, func(n ast.Node) bool {
+			if cl, ok := n.(*ast.CompositeLit); ok && cl.Type != nil && src(cl.Type) == litType {
+				for _, el := range cl.Elts {
+					if kv, ok := el.(*ast.KeyValueExpr); ok && src(kv.Key) == field {
+						vals = append(vals, kv.Value)
+					}
+				}
+			}
+			return true
+		})
+		if len(vals) != 1 {
+			panic(bail{fmt.Sprintf("%s: expected exactly one %s{…%s: …} in %s, found %d", rel, litType, field, fn, len(vals))})
+		}
+		v := vals[0]
+		origin := src(v)
+		if id, ok := v.(*ast.Ident); ok {
+			ss := findStmts(fd, func(s ast.Stmt) bool {
+				a, ok := s.(*ast.AssignStmt)
+				return ok && len(a.Lhs) == 1 && len(a.Rhs) == 1 && src(a.Lhs[0]) == id.Name
+			})
+			if len(ss) != 1 {
+				panic(bail{fmt.Sprintf("%s: %s.%s is the local %s, which has %d assignments in %s (expected 1)", rel, litType, field, id.Name, len(ss), fn)})
+			}
+			v = ss[0].(*ast.AssignStmt).Rhs[0]
+			origin = src(ss[0])
+		}
+		return fmt.Sprintf("/-- generated from %s func %s: the value of %s.%s (`%s`) -/\ndef %s %s : %s :=\n  %s\n", rel, fn, litType, field, origin, leanName, params, resultTy, t.expr(v))
+	}
+}
+
 // condKernel translates the condition of the unique `if` in fn whose condition source contains every marker.
 func condKernel(rel, fn string, markers []string, leanName, params string, sp Spec) func() string {
 	return func() string {
